@@ -8,6 +8,7 @@ import (
 	"sort"
 	"strings"
 
+	"github.com/getkin/kin-openapi/openapi3"
 	"github.com/oapi-codegen/oapi-codegen/v2/pkg/codegen"
 )
 
@@ -121,6 +122,10 @@ func c10Shape(f *ast.File, fset interface{}, name string, depth int) (map[string
 			ts, ok := sp.(*ast.TypeSpec)
 			if ok && ts.Name.Name == name {
 				st, _ = ts.Type.(*ast.StructType)
+				if id, isIdent := ts.Type.(*ast.Ident); isIdent && depth <= 6 {
+					// an alias or a defined type of another generated type (a composition of one member)
+					return c10Shape(f, fset, id.Name, depth+1)
+				}
 			}
 		}
 	}
@@ -355,6 +360,10 @@ func runC10(ctx *Ctx) error {
 		for i, pm := range c.perms {
 			name := fmt.Sprintf("M%d", i)
 			fields, addl, ok := c10Shape(f, fset, name, 0)
+			if !ok && len(exp.Props) == 0 {
+				ctx.Res.Count("no-properties") // a map or interface{}: nothing to compare member by member
+				break
+			}
 			if !ok {
 				ctx.Res.Violate("no-struct:"+sigm, "the merged type "+name+" is not a struct", replay)
 				break
@@ -426,4 +435,184 @@ func runC10(ctx *Ctx) error {
 
 func init() { register("c10", runC10) }
 
-func c10Corr(ctx *Ctx, n int) error { return nil }
+// ---------- CORR: mergeOpenapiSchemas vs Merge.mergeList ----------
+
+var c10PropSchemas = map[int]*openapi3.SchemaRef{
+	1: openapi3.NewSchemaRef("", openapi3.NewStringSchema()),
+	2: openapi3.NewSchemaRef("", openapi3.NewIntegerSchema()),
+	3: openapi3.NewSchemaRef("", openapi3.NewBoolSchema()),
+}
+
+type c10Flat struct {
+	Type       *int     `json:"type,omitempty"`
+	Format     int      `json:"format"`
+	Props      []J      `json:"props"`
+	Required   []string `json:"required"`
+	AddlHas    *bool    `json:"addlHas,omitempty"`
+	AddlSchema *int     `json:"addlSchema,omitempty"`
+	Flags      int      `json:"flags"`
+	HasDefault bool     `json:"hasDefault"`
+}
+
+func c10GenFlat(r *Rng) c10Flat {
+	f := c10Flat{Props: []J{}, Required: []string{}}
+	if r.Chance(70) {
+		t := 1
+		if r.Chance(10) {
+			t = 2
+		}
+		f.Type = &t
+	}
+	if r.Chance(8) {
+		f.Format = 1 + r.Intn(2)
+	}
+	names := []string{"a", "b", "c", "d"}
+	for _, i := range r.Perm(4)[:r.Intn(4)] {
+		f.Props = append(f.Props, J{"k": names[i], "v": 1 + r.Intn(3)})
+	}
+	for _, i := range r.Perm(4)[:r.Intn(3)] {
+		f.Required = append(f.Required, names[i])
+	}
+	switch p := r.Intn(10); {
+	case p < 2:
+		b := true
+		f.AddlHas = &b
+	case p < 4:
+		b := false
+		f.AddlHas = &b
+	case p < 6:
+		a := 1 + r.Intn(3)
+		f.AddlSchema = &a
+	}
+	if r.Chance(6) {
+		f.Flags = 1 + r.Intn(3)
+	}
+	f.HasDefault = r.Chance(3)
+	return f
+}
+
+func (f c10Flat) Schema() openapi3.Schema {
+	var s openapi3.Schema
+	if f.Type != nil {
+		s.Type = &openapi3.Types{map[int]string{1: "object", 2: "string"}[*f.Type]}
+	}
+	if f.Format > 0 {
+		s.Format = fmt.Sprintf("f%d", f.Format)
+	}
+	if len(f.Props) > 0 {
+		s.Properties = openapi3.Schemas{}
+		for _, p := range f.Props {
+			s.Properties[p["k"].(string)] = c10PropSchemas[p["v"].(int)]
+		}
+	}
+	s.Required = append([]string{}, f.Required...)
+	if f.AddlHas != nil {
+		b := *f.AddlHas
+		s.AdditionalProperties.Has = &b
+	}
+	if f.AddlSchema != nil {
+		s.AdditionalProperties.Schema = c10PropSchemas[*f.AddlSchema]
+	}
+	s.Nullable = f.Flags&1 != 0
+	s.ReadOnly = f.Flags&2 != 0
+	if f.HasDefault {
+		s.Default = 1
+	}
+	return s
+}
+
+func c10Corr(ctx *Ctx, n int) error {
+	for i := 0; i < n; i++ {
+		r := ctx.Rng.Fork()
+		k := 1 + r.Intn(4)
+		var ms []c10Flat
+		for j := 0; j < k; j++ {
+			ms = append(ms, c10GenFlat(r))
+		}
+		// the implementation: the fold of mergeSchemas over the member values
+		acc := ms[0].Schema()
+		var implErr error
+		for j := 1; j < k; j++ {
+			acc, implErr = codegen.VerifMergeOpenapiSchemas(acc, ms[j].Schema(), true)
+			if implErr != nil {
+				break
+			}
+		}
+		var res map[string]interface{}
+		if err := ctx.Model(J{"fn": "merge", "members": ms}, &res); err != nil {
+			return err
+		}
+		ctx.Res.Eval(J{"members": ms}, true)
+		ctx.Res.Count(fmt.Sprintf("corr:members=%d", k))
+		_, modelErr := res["error"]
+		if modelErr != (implErr != nil) {
+			ctx.Res.Disagree("CORR mergeOpenapiSchemas fold vs Merge.mergeList (error or not)", J{"members": ms}, res, fmt.Sprint(implErr))
+			continue
+		}
+		if modelErr {
+			ctx.Res.Count("corr:error")
+			continue
+		}
+		id := func(ref *openapi3.SchemaRef) int {
+			for k, v := range c10PropSchemas {
+				if v == ref {
+					return k
+				}
+			}
+			return -1
+		}
+		impl := J{"format": 0, "flags": 0}
+		if acc.Type != nil && len(acc.Type.Slice()) > 0 {
+			impl["type"] = map[string]int{"object": 1, "string": 2}[acc.Type.Slice()[0]]
+		}
+		if acc.Format != "" {
+			fmt.Sscanf(acc.Format, "f%d", new(int))
+			var fv int
+			fmt.Sscanf(acc.Format, "f%d", &fv)
+			impl["format"] = fv
+		}
+		props := map[string]int{}
+		for k, v := range acc.Properties {
+			props[k] = id(v)
+		}
+		mprops := map[string]int{}
+		if pl, ok := res["props"].([]interface{}); ok {
+			for _, e := range pl {
+				m := e.(map[string]interface{})
+				mprops[m["k"].(string)] = int(m["v"].(float64))
+			}
+		}
+		req := append([]string{}, acc.Required...)
+		var mreq []string
+		if rl, ok := res["required"].([]interface{}); ok {
+			for _, x := range rl {
+				mreq = append(mreq, x.(string))
+			}
+		}
+		var implHas, modelHas interface{}
+		if acc.AdditionalProperties.Has != nil {
+			implHas = *acc.AdditionalProperties.Has
+		}
+		modelHas = res["addlHas"]
+		implSchema, modelSchema := -1, -1
+		if acc.AdditionalProperties.Schema != nil {
+			implSchema = id(acc.AdditionalProperties.Schema)
+		}
+		if v, ok := res["addlSchema"].(float64); ok {
+			modelSchema = int(v)
+		}
+		mtype := -1
+		if v, ok := res["type"].(float64); ok {
+			mtype = int(v)
+		}
+		itype := -1
+		if v, ok := impl["type"].(int); ok {
+			itype = v
+		}
+		if Canon(props) != Canon(mprops) || strings.Join(req, ",") != strings.Join(mreq, ",") || fmt.Sprint(implHas) != fmt.Sprint(modelHas) || implSchema != modelSchema || mtype != itype {
+			ctx.Res.Disagree("CORR mergeOpenapiSchemas fold vs Merge.mergeList (result)", J{"members": ms}, res,
+				J{"type": itype, "props": props, "required": req, "addlHas": implHas, "addlSchema": implSchema})
+		}
+	}
+	return nil
+}
